@@ -20,14 +20,23 @@ TInit == l = 1 /\ rec = None /\ hi = 0 /\ wrote = [n \in Nodes |-> ""]
 
 Accepts(ver) == rec = None \/ rec.ver = ver
 
+\* calls on other records (the table's catalogue record, touched by DeleteTable / GetTables in the epilogue) are not
+\* interpreted; calls on the LEASE record are - whichever manager method makes them
+IsLease == IF "lease" \in DOMAIN Ev THEN Ev.lease ELSE TRUE
+TOtherKey == /\ l <= Len(TraceLog)
+             /\ \/ Ev.ev \in {"sexists", "sgetall"}
+                \/ Ev.ev \in {"sget", "sset", "sdel"} /\ ~IsLease
+             /\ l' = l + 1
+             /\ UNCHANGED <<rec, hi, wrote>>
+
 TGet ==
-  /\ IsEvent("sget")
+  /\ IsEvent("sget") /\ IsLease
   /\ IF rec = None THEN ~Ev.found
      ELSE Ev.found /\ Ev.owner = rec.owner /\ Ev.until = rec.until /\ Ev.ver = rec.ver
   /\ UNCHANGED <<rec, hi, wrote>>
 
 TSet ==
-  /\ IsEvent("sset")
+  /\ IsEvent("sset") /\ IsLease
   /\ IF Accepts(Ev.ver)
      THEN /\ Ev.err = ""
           /\ Ev.rver > hi
@@ -42,7 +51,7 @@ TSet ==
           /\ UNCHANGED <<rec, hi, wrote>>
 
 TDel ==
-  /\ IsEvent("sdel")
+  /\ IsEvent("sdel") /\ IsLease
   /\ IF Accepts(Ev.ver)
      THEN /\ Ev.err = ""
           /\ (rec = None \/ rec.owner = Ev.n)          \* a return removes only the caller's own lease
@@ -58,12 +67,25 @@ TRet ==
   /\ (Ev.res = "ok" <=> wrote[Ev.n] = "set")
   /\ (Ev.res = "returned" => wrote[Ev.n] = "del")
   /\ (Ev.call = "RT" /\ wrote[Ev.n] = "del" => Ev.res = "returned")
+  /\ (Ev.call \in {"DT", "GT"} => wrote[Ev.n] = "")            \* other catalogue operations never write the lease record
   /\ wrote' = [wrote EXCEPT ![Ev.n] = ""]
   /\ UNCHANGED <<rec, hi>>
 
+\* {"ev":"race","results":[..],"holder":n,"unexpired":bool,"owner":n} : racing LeaseTable calls of nodes 1..k whose
+\* compare-and-set proposals reach the state machine as one apply batch; holder = who held a lease before (0 nobody),
+\* unexpired = that lease is still running, owner = the record afterwards.  Of several racing requests at most one
+\* succeeds; a running lease of racer 1 is not taken over; the record names a winner
+TRace ==
+  /\ IsEvent("race")
+  /\ LET oks == {i \in 1..Len(Ev.results) : Ev.results[i] = "ok"} IN
+     /\ Cardinality(oks) <= 1
+     /\ (Ev.unexpired => oks \subseteq {Ev.holder})
+     /\ \A i \in oks : Ev.owner = i
+  /\ UNCHANGED <<rec, hi, wrote>>
+
 TReset == IsEvent("reset") /\ rec' = None /\ hi' = 0 /\ wrote' = [n \in Nodes |-> ""]
 
-TNext == TGet \/ TSet \/ TDel \/ TRet \/ TReset
+TNext == TGet \/ TSet \/ TDel \/ TRet \/ TReset \/ TOtherKey \/ TRace
 TSpec == TInit /\ [][TNext]_vars
 
 TraceAccepted ==
